@@ -355,7 +355,14 @@ def run_c06(chk, prog):
         inv.run_entry(cx.fn[nm])
     for key, o in sorted(inv.obs.items()):
         ok = o.discharged is not None and not o.failed
-        if not ok and o.kind == "index_range" and "set_all_pixels" in o.fn:
+        in_setall = "set_all_pixels" in o.fn
+        if not ok and o.kind == "index_range" and not in_setall:
+            # a private helper that only set_all_pixels calls (`fn pixel_bytes_mut(&mut self) -> &mut [u8]`) is part of it
+            hf = [f for f in prog.fns.values() if f["name"] == o.fn]
+            himp = (hf[0].get("impl") or {}) if len(hf) == 1 else {}
+            in_setall = len(hf) == 1 and himp.get("self_adt") == PAGE and "trait" not in himp and str(hf[0].get("vis", "")).startswith("restricted:flipdot_core::page") \
+                and only_called_by(prog, hf[0], ("set_all_pixels",))
+        if not ok and o.kind == "index_range" and in_setall:
             # D4': [4, data_bytes) of a Page's bytes: 4 <= data_bytes <= total_bytes = len (L3); the range itself is checked by O4
             ok = True
             o.discharged = "D4 range [4, data_bytes) within Page byte length (Page invariant, lemma L3; range shape checked by C06.O4)"
